@@ -584,9 +584,9 @@ package tengo
 //@   requires b.MainFunction != nil
 //@   assigns *
 //@   let consts = b.Constants
-//@   loop 0 assigns nothing
+//@   loop 0 assigns indexMap[*], fns[*], ints[*], strings[*], floats[*], chars[*], immutableMaps[*]
 //@   loop 0 invariant idx: 0 <= rangeindex+1 && rangeindex+1 <= len(consts)
-//@   loop 0 invariant fresh_store{C12}: cap(deduped) > 0 ==> fresh(deduped)
+//@   loop 0 invariant fresh_store{C12}: cap(deduped) > 0 ==> freshloop(deduped)
 //@   loop 0 invariant mapped{C02,C12}: forall i in 0..rangeindex+1 :: haskey(indexMap, i) && 0 <= indexMap[i] && indexMap[i] < len(deduped)
 //@   loop 0 invariant same_kind{C12}: forall i in 0..rangeindex+1 :: tagof(deduped[indexMap[i]]) == tagof(old(consts[i]))
 //@   loop 0 invariant fns_rng{C02,C12}: forall k *CompiledFunction :: haskey(fns, k) ==> 0 <= fns[k] && fns[k] < len(deduped) && deduped[fns[k]] == k
@@ -794,6 +794,19 @@ package tengo
 //@   loop 5 step preinit_defines{C11,C01}: continued && len(c.scopes[c.scopeIndex].Instructions) > it0(len(c.scopes[c.scopeIndex].Instructions))
 //@                   && c.scopes[c.scopeIndex].Instructions[it0(len(c.scopes[c.scopeIndex].Instructions))] == parser.OpNull
 //@              ==> c.scopes[c.scopeIndex].Instructions[it0(len(c.scopes[c.scopeIndex].Instructions))+1] == parser.OpDefineLocal
+//@   loop 5 let L5 = len(c.scopes[c.scopeIndex].Instructions)
+//@   loop 5 let sym = freeSymbols[rangeindex+1]
+//@   loop 5 step preinit_emitted{C11,C01}: continued && it0(sym.Scope == ScopeLocal && !sym.LocalAssigned)
+//@              ==> len(c.scopes[c.scopeIndex].Instructions) == L5 + 5
+//@                  && c.scopes[c.scopeIndex].Instructions[L5] == parser.OpNull
+//@                  && c.scopes[c.scopeIndex].Instructions[L5+1] == parser.OpDefineLocal && c.scopes[c.scopeIndex].Instructions[L5+2] == byte(sym.Index)
+//@                  && c.scopes[c.scopeIndex].Instructions[L5+3] == parser.OpGetLocalPtr && c.scopes[c.scopeIndex].Instructions[L5+4] == byte(sym.Index)
+//@   loop 5 step capture_local{C11}: continued && it0(sym.Scope == ScopeLocal && sym.LocalAssigned)
+//@              ==> len(c.scopes[c.scopeIndex].Instructions) == L5 + 2
+//@                  && c.scopes[c.scopeIndex].Instructions[L5] == parser.OpGetLocalPtr && c.scopes[c.scopeIndex].Instructions[L5+1] == byte(sym.Index)
+//@   loop 5 step capture_free{C11}: continued && it0(sym.Scope == ScopeFree)
+//@              ==> len(c.scopes[c.scopeIndex].Instructions) == L5 + 2
+//@                  && c.scopes[c.scopeIndex].Instructions[L5] == parser.OpGetFreePtr && c.scopes[c.scopeIndex].Instructions[L5+1] == byte(sym.Index)
 //@   loop 5 invariant k: c.symbolTable == st0 && c.scopeIndex == old(c.scopeIndex) && c.scopeIndex == len(c.scopes) - 1 && c.scopes[c.scopeIndex].SourceMap != nil
 //@   loop 5 invariant g{C02!}: len(c.scopes[c.scopeIndex].Instructions) >= len(ins0) && (samearray(c.scopes[c.scopeIndex].Instructions, ins0) || fresh(c.scopes[c.scopeIndex].Instructions))
 //@   loop 5 invariant b{C02!}: forall j in 0..c.scopeIndex :: sameslice(c.scopes[j].Instructions, old(c.scopes[j].Instructions)) && c.scopes[j].SourceMap == old(c.scopes[j].SourceMap)
